@@ -1781,17 +1781,6 @@ func c13GenFonts(c *Ctx, n int) {
 		out := Exec("cff.file.write font=" + desc)
 		if strings.HasPrefix(out, "ok:") {
 			want := desc
-			if encKind != "" {
-				// the spec reader does not know the predefined encodings: compare everything else
-				if i := strings.Index(desc, ";enc:"); i >= 0 {
-					rest := desc[i+5:]
-					j := strings.IndexByte(rest, ';')
-					if j < 0 {
-						j = len(rest)
-					}
-					want = desc[:i] + rest[j:]
-				}
-			}
 			c.Case(Direct, "cff.file.spec", "file="+out[3:]+" want="+want, ng > 1)
 			c.Stat("file_bytes", bucket(len(out[3:])/2))
 			if len(out) < 6000 {
@@ -1807,6 +1796,7 @@ func c13GenFonts(c *Ctx, n int) {
 		if cs, dw, nw, err := cff.VerifEncodeCharStrings(f.build()); err == nil {
 			line := fmt.Sprintf("font=%s cs=%s dw=%d nw=%d", desc, c13ShowBlobs(cs), int32(dw), int32(nw))
 			// (the model decides itself whether the vector is the Standard or the Expert encoding)
+			_ = encKind
 			res := c.Case(Verdict, "cff.file.model", line, ng > 1)
 			c.Stat("file_model", c13OutcomeClass(res))
 		} else {
